@@ -491,6 +491,7 @@ class Features:
     undocumented_classes: bool = False  #: a class without docstring that gets an interface: java raises ViolationError
     tautologies_after_narrowing: bool = False  #: ``x is None or x is not None``: rejected by the type checker
     multiple_patterns_per_value: bool = False  #: two pattern constraints on one value: xsd intersects them with greenery (minutes, or "digit escaping" error)
+    impl_specific_classes: bool = False  #: ``@implementation_specific`` classes: csharp asserts, java raises ViolationError, cpp reports an error
 
     HAZARDS = (
         "non_ascii_values", "control_char_values", "huge_ints", "lists_of_non_classes", "nested_lists",
@@ -498,6 +499,7 @@ class Features:
         "arithmetic_on_constrained", "duplicate_enum_values", "guards_on_other_property", "joined_str_in_invariants",
         "local_variables_in_functions", "abstract_without_concrete_descendants", "descendants_without_model_type",
         "classes_without_properties", "undocumented_classes", "tautologies_after_narrowing", "multiple_patterns_per_value",
+        "impl_specific_classes",
     )
 
     @staticmethod
@@ -851,6 +853,10 @@ class _Gen:
         for i in range(n):
             self.gen_props(i)
         self.fix_model_types()
+        if ft.impl_specific_classes:
+            loners = [c for c in self.mm.classes if not c.bases and not c.abstract and not descendants(self.mm, c.name)]
+            if loners and self.chance(0.5):
+                self.pick(loners).impl_specific = True
         if ft.impl_specific:
             self.gen_methods()
         for c in self.mm.classes:
@@ -924,12 +930,14 @@ class _Gen:
                 if self.chance(0.45):
                     t = OptionalOf(t)
                 elif required_class:
-                    # a required class-typed property must not make its owner uninstantiable: the target
-                    # needs a concrete (descendant-or-self) class that is instantiable without the owner
-                    target = t.name  # type: ignore[union-attr]
-                    ok = self.instantiable()
-                    mine = {c.name} | set(descendants(self.mm, c.name))
-                    if not any(d in ok and d not in mine for d in [target] + descendants(self.mm, target)):
+                    # a required class-typed property must not make any class uninstantiable (mutual
+                    # required references admit no finite instance): try it, take it back if it does
+                    before = self.instantiable()
+                    probe = Prop("probe_only", t)
+                    c.props.append(probe)
+                    after = self.instantiable()
+                    c.props.remove(probe)
+                    if not before <= after:
                         t = OptionalOf(t)
             c.props.append(Prop(self.names.fresh(""), t, self.description("a property")))
 
